@@ -314,6 +314,10 @@ func (x *Exec) computeLoopMods(fn *ssa.Function, lr *loopRec) {
 				if isLocalCell(v) {
 					cellSet[v] = true
 				}
+			case *ssa.Next:
+				if rng, ok := v.Iter.(*ssa.Range); ok && v.IsString {
+					cellSet[iterAlloc(rng)] = true
+				}
 			case ssa.CallInstruction:
 				c := v.Common()
 				if _, isB := c.Value.(*ssa.Builtin); !isB {
